@@ -5,6 +5,11 @@ use vstd::prelude::*;
 use vstd::std_specs::iter::IteratorSpec;
 use std::collections::HashMap;
 verus! {
+// usize::div_ceil (std; assumed, the specification is the documented result: the quotient rounded up)
+pub assume_specification [ usize::div_ceil ] (a: usize, b: usize) -> (r: usize)
+    requires b != 0,
+    ensures r as int == (a as int + b as int - 1) / (b as int);
+
 //@ include ../_common/bytes_prelude.rs
 //@ include ../_common/bytechain_prelude.rs
 // R10: HashMap::get_mut has no vstd specification; extracted `E.get_mut(&k)` calls this wrapper.
